@@ -147,7 +147,10 @@ def descend(prog, rm, W, descs, depth=0):
     if depth > 5:
         return None
     if W.id in rm.leaf:
-        c = rm.leaf[W.id][0]
+        ins = [x for x in rm.leaf[W.id] if (x.callee or '').endswith('::insert')]
+        if not ins:
+            return None
+        c = ins[0]
         if len(c.args) < 3:
             return None
         return _desc_of(W, c.args[1], descs), _desc_of(W, c.args[2], descs)
